@@ -110,6 +110,36 @@ pub mod verif {
         }
     }
 
+    /// Exporters whose transport thread the harness wants parked between two polls: (exporter, parked). While an entry
+    /// exists the thread does not enter `poll`, so everything the harness does meanwhile lands in one batch of events.
+    static HELD: std::sync::Mutex<Vec<(usize, bool)>> = std::sync::Mutex::new(Vec::new());
+
+    pub(crate) fn hold(exporter: usize) {
+        HELD.lock().unwrap().push((exporter, false));
+    }
+
+    pub(crate) fn is_parked(exporter: usize) -> bool {
+        HELD.lock().unwrap().iter().any(|e| e.0 == exporter && e.1)
+    }
+
+    pub(crate) fn release(exporter: usize) {
+        HELD.lock().unwrap().retain(|e| e.0 != exporter);
+    }
+
+    /// Called by the transport thread before every `poll`.
+    pub(crate) fn hold_point(exporter: usize) {
+        loop {
+            {
+                let mut h = HELD.lock().unwrap();
+                match h.iter_mut().find(|e| e.0 == exporter) {
+                    Some(e) => e.1 = true,
+                    None => return,
+                }
+            }
+            std::thread::sleep(std::time::Duration::from_micros(50));
+        }
+    }
+
     /// Answer the environment gives to one `write` call.
     #[derive(Clone, Copy, Debug)]
     pub enum WriteAnswer {
@@ -423,6 +453,22 @@ impl TcpRecorder {
         verif::batches_done(Arc::as_ptr(&self.state) as usize)
     }
 
+    /// Parks the transport thread between two polls (returns once it is parked); events caused from now on are all
+    /// seen by the `poll` that follows `verif_release`, i.e. in one batch.
+    pub fn verif_hold(&self) {
+        let id = Arc::as_ptr(&self.state) as usize;
+        verif::hold(id);
+        self.state.wake();
+        while !verif::is_parked(id) {
+            std::thread::sleep(std::time::Duration::from_micros(50));
+        }
+    }
+
+    /// Lets a transport thread parked by `verif_hold` go on.
+    pub fn verif_release(&self) {
+        verif::release(Arc::as_ptr(&self.state) as usize);
+    }
+
     /// Tells the transport thread of this exporter to exit at the end of its next batch (the exporter itself has no
     /// shutdown; a harness that builds thousands of exporters in one process would otherwise run out of threads).
     pub fn verif_retire(&self) {
@@ -476,6 +522,9 @@ fn run_transport(
 
     loop {
         let _span = trace_span!("transport");
+
+        #[cfg(metrics_verif)]
+        verif::hold_point(Arc::as_ptr(&state) as usize);
 
         // Poll until we get something.  All events -- metrics wake-ups and network I/O -- flow
         // through here so we can block without issue.
